@@ -27,6 +27,7 @@ func init() {
 	}, func(e *Env) {
 		e.RPureUpdateImports()
 		e.RPureRestore()
+		e.RDiscovery()
 		e.RMerge()
 		e.RRestoreIdent()
 		e.C05Space()
@@ -38,6 +39,7 @@ func init() {
 		e.RRoleFilter()
 		e.RResolvePath()
 		e.RResolverClauses()
+		e.RResolverErrorsFirst()
 		e.RErr(e.pkgs(load.PkgDecorator, load.PkgGoast, load.PkgGotypes), 85)
 		e.RAssert()
 	})
